@@ -35,14 +35,17 @@ LEVEL_TEXT = ("Proof: for every well-formed file (decidable predicate; any cell 
               "entry-wise linear, the marginals sum to the total under every broadcastable factor, per-magnitude weights act on "
               "the magnitude marginal bin by bin, and the scalar model is the special case; scale_to_test_date is computed by "
               "the model from the three datetimes in binary64 (C15's decimal_year): identity outside the period, absolute and "
-              "idempotent inside, fraction >= 0 and weakly increasing in the test date. Tied to the code by generated files.")
+              "idempotent inside, fraction >= 0 and weakly increasing in the test date, and within 2e-10 of the exact fraction of the "
+              "period elapsed at the end of the test day for every period >= 31 days (2e-9 for >= 2 days), all datetimes "
+              "0001..9999, the last day of the period included. Tied to the code by generated files.")
 LEVEL_NOTE = ("The region's point lookup and bin1d_vec are modelled by their exact half-open meaning (C01/C02 treat the float bin "
               "formula); probes within 1e-10 relative below an edge may go either way. numpy.loadtxt is modelled for the "
               "Cartesian .dat layout (ASCII digits, no infinities / NaN; the sign of a zero is not represented); "
               "numpy.genfromtxt of the quadtree layouts, mercantile tile bounds and the decimal-year arithmetic are inputs "
               "(checked numerically), not modelled. The decimal-year fraction of scale_to_test_date is MODELLED (bit-exact, "
               "Time.decimalYear + two float subtractions + one division) and compared bit for bit; its distance to the exact "
-              "fraction is only checked numerically (1e-9, periods >= 31 days), not proved. ndarray scale factors are "
+              "fraction is proved (test_date_fraction_close, from C15's full-range decimal-year error bound) and also checked "
+              "numerically (1e-9, periods >= 31 days). ndarray scale factors are "
               "MODELLED for the shapes that broadcast to (cells, magnitudes) and compared at the end of every such history "
               "(step by step they are judged by the oracle). Sums are compared to 1e-9 relative because numpy's summation "
               "order is not modelled.")
@@ -79,7 +82,8 @@ THEOREMS = ["ForecastFile.load_eq", "ForecastFile.load_some_of_wellFormed", "For
             "ForecastFile.test_date_outside", "ForecastFile.test_date_inside_sets", "ForecastFile.test_date_absolute",
             "ForecastFile.test_date_idempotent", "ForecastFile.test_date_forgets_scale", "ForecastFile.test_date_rates",
             "ForecastFile.fore_dur_pos", "ForecastFile.test_date_fraction_nonneg", "ForecastFile.test_date_fraction_mono",
-            "ForecastFile.test_date_fraction_exact_range"]
+            "ForecastFile.test_date_fraction_exact_range", "ForecastFile.test_date_fraction_close_aux",
+            "ForecastFile.test_date_fraction_close", "ForecastFile.test_date_fraction_close_short"]
 TRUSTED = ["Lean 4.33 kernel", "axioms: propext, Classical.choice, Quot.sound at most",
            "numpy.loadtxt is MODELLED (Model/DecimalText.lean: lines, '#' comments, blank-separated tokens, strtod grammar, "
            "round-to-nearest-even) and compared with numpy on every Cartesian file and on ~4000 single tokens per run; "
